@@ -94,16 +94,340 @@ func genEther(rng *lib.Rand) []byte {
 	return append(b, p...)
 }
 
+func genHBH(rng *lib.Rand) []byte {
+	L := pick(rng, 0, 0, 1, 2, 3)
+	n := 8*L + 8
+	b := make([]byte, 0, n+8)
+	b = append(b, rng.Byte(), byte(L))
+	for len(b) < n {
+		rem := n - len(b)
+		switch rng.Intn(6) {
+		case 0: // Pad1
+			b = append(b, 0)
+		case 1: // PadN
+			k := rng.Intn(4)
+			if k+2 > rem {
+				b = append(b, 0)
+				continue
+			}
+			b = append(b, 1, byte(k))
+			b = append(b, make([]byte, k)...)
+		case 2: // router alert
+			if rem < 4 {
+				b = append(b, 0)
+				continue
+			}
+			b = append(b, 5, 2, 0, byte(rng.Intn(3)))
+		case 3: // other option
+			k := rng.Intn(6)
+			if k+2 > rem {
+				b = append(b, 0)
+				continue
+			}
+			b = append(b, byte(0x20+rng.Intn(0xc0)), byte(k))
+			b = append(b, rng.Bytes(k)...)
+		case 4: // option whose length runs past the end
+			b = append(b, byte(rng.Intn(256)))
+			if len(b) < n {
+				b = append(b, byte(rem+rng.Intn(8)))
+			}
+		default:
+			b = append(b, rng.Byte())
+		}
+	}
+	b = b[:n]
+	return append(b, rng.Bytes(pick(rng, 2, 2, 3, 10))...) // IsValid wants two more bytes than Len()
+}
+
+func genICMP(rng *lib.Rand) []byte { return rng.Bytes(8 + pick(rng, 0, 0, 1, 8, rng.Intn(48))) }
+
+func genR4(rng *lib.Rand) []byte {
+	n := pick(rng, 0, 1, 1, 2, 3)
+	a := pick(rng, 4, 4, 10)
+	b := rng.Bytes(8 + n*a*4 + pick(rng, 0, 0, 1, 7))
+	b[0] = 137
+	b[4], b[5] = byte(n), byte(a)
+	return b
+}
+
+func mac(rng *lib.Rand) []byte { return rng.Bytes(6) }
+
+// NDP options, written per RFC 4861 / 4191 / 8106
+func ndpOption(rng *lib.Rand) []byte {
+	switch rng.Intn(12) {
+	case 0:
+		return append([]byte{1, 1}, mac(rng)...)
+	case 1:
+		return append([]byte{2, 1}, mac(rng)...)
+	case 2:
+		b := rng.Bytes(8)
+		b[0], b[1], b[2], b[3] = 5, 1, 0, 0
+		return b
+	case 3:
+		b := rng.Bytes(32)
+		b[0], b[1] = 3, 4
+		b[2] = byte(rng.Intn(129))
+		return b
+	case 4:
+		l := pick(rng, 1, 2, 3)
+		b := rng.Bytes(8 * l)
+		b[0], b[1] = 24, byte(l)
+		b[2] = byte(pick(rng, 0, 48, 64, 96, 128, rng.Intn(256)))
+		b[3] = byte(pick(rng, 0, 8, 24, 16))
+		return b
+	case 5:
+		l := pick(rng, 3, 5, 1, 2)
+		b := rng.Bytes(8 * l)
+		b[0], b[1] = 25, byte(l)
+		return b
+	case 6:
+		b := []byte{31, 2, 0, 0, 0, 0, 0, 60, 3, 'l', 'a', 'n', 0, 0, 0, 0}
+		if rng.Chance(30) {
+			copy(b[8:], rng.Bytes(8))
+		}
+		return b
+	case 7: // unknown type
+		l := pick(rng, 1, 1, 2)
+		b := rng.Bytes(8 * l)
+		b[0], b[1] = byte(pick(rng, 14, 4, 38, 200)), byte(l)
+		return b
+	case 8: // wrong length for the type
+		b := rng.Bytes(16)
+		b[0], b[1] = byte(pick(rng, 1, 2, 3, 5)), 2
+		return b
+	case 9: // zero length (DESIGN 11 #12): panics for decoded types, spins for the others
+		return []byte{byte(pick(rng, 1, 2, 3, 5, 24, 25, 31, 14, 0)), 0, 0, 0, 0, 0, 0, 0}
+	case 10: // length past the end
+		return []byte{byte(pick(rng, 1, 3, 25, 14)), byte(4 + rng.Intn(200)), 1, 2, 3, 4, 5, 6}
+	default:
+		return rng.Bytes(pick(rng, 1, 3, 8))
+	}
+}
+
+func ndpOptions(rng *lib.Rand, first []byte) []byte {
+	b := append([]byte{}, first...)
+	for k := pick(rng, 0, 0, 1, 1, 2, 3); k > 0; k-- {
+		b = append(b, ndpOption(rng)...)
+	}
+	return b
+}
+
+func genRS(rng *lib.Rand) []byte {
+	b := rng.Bytes(8)
+	b[0] = 133
+	var first []byte
+	switch rng.Intn(5) {
+	case 0:
+		first = append([]byte{1, 1}, mac(rng)...) // RFC 4861 source link-layer address option
+	case 1:
+		first = append([]byte{1, 3}, rng.Bytes(22)...) // the 24-byte layout the library looks for
+	case 2:
+		first = append(append([]byte{1, 1}, mac(rng)...), rng.Bytes(8)...)
+	}
+	return append(b, ndpOptions(rng, first)...)
+}
+
+func genRA(rng *lib.Rand) []byte {
+	b := rng.Bytes(16)
+	b[0] = 134
+	return append(b, ndpOptions(rng, nil)...)
+}
+
+func genNDTarget(typ byte, optType byte, hdr int) func(rng *lib.Rand) []byte {
+	return func(rng *lib.Rand) []byte {
+		b := rng.Bytes(hdr)
+		b[0] = typ
+		switch rng.Intn(5) {
+		case 0:
+		case 1, 2:
+			b = append(b, optType, 1)
+			b = append(b, mac(rng)...)
+		case 3:
+			b = append(b, byte(pick(rng, 1, 2, 5)), byte(pick(rng, 1, 2, 0)))
+			b = append(b, rng.Bytes(pick(rng, 6, 14, 2))...)
+		default:
+			b = append(b, rng.Bytes(rng.Intn(12))...)
+		}
+		return b
+	}
+}
+
+func genDHCP4(rng *lib.Rand) []byte {
+	b := rng.Bytes(240)
+	b[0] = byte(pick(rng, 1, 2))
+	b[1], b[2], b[3] = 1, 6, 0
+	// sname / file: NUL-terminated strings, empty, or completely filled
+	for _, f := range [][2]int{{44, 64}, {108, 128}} {
+		off, n := f[0], f[1]
+		switch rng.Intn(4) {
+		case 0:
+			for i := 0; i < n; i++ {
+				b[off+i] = 0
+			}
+		case 1:
+			k := rng.Intn(n)
+			for i := 0; i < n; i++ {
+				b[off+i] = byte('a' + rng.Intn(26))
+			}
+			b[off+k] = 0
+		case 2:
+			for i := 0; i < n; i++ {
+				b[off+i] = byte('a' + rng.Intn(26))
+			}
+		}
+	}
+	copy(b[236:], []byte{99, 130, 83, 99})
+	opt := func(code int, v []byte) { b = append(append(b, byte(code), byte(len(v))), v...) }
+	opt(53, []byte{byte(1 + rng.Intn(8))})
+	for k := rng.Intn(5); k > 0; k-- {
+		switch rng.Intn(8) {
+		case 0:
+			opt(50, rng.Bytes(4))
+		case 1:
+			opt(12, []byte("host"+string(rune('a'+rng.Intn(26)))))
+		case 2:
+			opt(55, rng.Bytes(rng.Intn(10)))
+		case 3:
+			b = append(b, 0) // pad
+		case 4:
+			opt(61, append([]byte{1}, mac(rng)...))
+		case 5:
+			opt(pick(rng, 53, 50, 12), rng.Bytes(rng.Intn(5))) // repeated code: the later one wins
+		case 6:
+			opt(rng.Intn(254)+1, nil) // zero-length option
+		default:
+			opt(rng.Intn(254)+1, rng.Bytes(rng.Intn(20)))
+		}
+	}
+	switch rng.Intn(6) {
+	case 0: // no end option
+	case 1: // truncated last option
+		b = append(b, byte(1+rng.Intn(254)), byte(5+rng.Intn(100)), 1, 2)
+	case 2: // a single trailing byte
+		b = append(b, byte(1+rng.Intn(254)))
+	default:
+		b = append(b, 255)
+		b = append(b, make([]byte, pick(rng, 0, 0, 3, 20))...)
+	}
+	return b
+}
+
+func genDNS(rng *lib.Rand) []byte { return rng.Bytes(12 + pick(rng, 0, 0, 5, 17, rng.Intn(60))) }
+
+func genLLC(rng *lib.Rand) []byte {
+	b := rng.Bytes(pick(rng, 3, 3, 4, 4, 5, 8, 20))
+	switch rng.Intn(6) {
+	case 0:
+		b[0], b[1], b[2] = 0xaa, 0xaa, 0x03
+	case 1:
+		b[2] = byte(pick(rng, 0x03, 0xe3, 0xaf, 0x7f))
+	case 2:
+		b[2] = byte(pick(rng, 0x01, 0x05, 0x0d))
+	case 3:
+		b[2] = byte(pick(rng, 0x00, 0x02, 0xfe))
+	case 4:
+		b[0], b[1] = 0x42, 0x42
+	}
+	return b
+}
+
+func genSNAP(rng *lib.Rand) []byte {
+	b := rng.Bytes(9 + pick(rng, 0, 0, 1, 30))
+	b[0], b[1], b[2] = 0xaa, 0xaa, 0x03
+	return b
+}
+
+func genRRCP(rng *lib.Rand) []byte {
+	b := rng.Bytes(16 + pick(rng, 0, 0, 30, 44))
+	b[0] = byte(pick(rng, 1, 0x23, 0x23, rng.Intn(256)))
+	return b
+}
+
+func gen1905(rng *lib.Rand) []byte { return rng.Bytes(8 + pick(rng, 0, 0, 3, 38, rng.Intn(100))) }
+
+func genPause(rng *lib.Rand) []byte {
+	b := rng.Bytes(46 + pick(rng, 0, 0, 1, 14))
+	b[0], b[1] = 0, 1
+	return b
+}
+
+func genLLDP(rng *lib.Rand) []byte {
+	var b []byte
+	tlv := func(t, l int, v []byte) { b = append(append(b, byte(t<<1|l>>8), byte(l)), v...) }
+	n1 := pick(rng, 7, 7, 5, 2, 2, 1, 0, 20)
+	tlv(1, n1, rng.Bytes(n1))
+	n2 := pick(rng, 7, 3, 2, 1, 0, 9)
+	tlv(2, n2, rng.Bytes(n2))
+	tlv(3, 2, []byte{0, 120})
+	for k := rng.Intn(4); k > 0; k-- {
+		t := pick(rng, 4, 5, 6, 7, 8, 127, rng.Intn(128))
+		n := pick(rng, 0, 1, 2, 4, 12, rng.Intn(30))
+		if rng.Chance(3) {
+			n = 256 + rng.Intn(40) // nine-bit length
+		}
+		tlv(t, n, rng.Bytes(n))
+	}
+	switch rng.Intn(4) {
+	case 0: // no end TLV
+	case 1:
+		tlv(0, 0, nil)
+	default:
+		tlv(0, 0, nil)
+		b = append(b, make([]byte, pick(rng, 1, 3, 10, 26))...)
+	}
+	return b
+}
+
+func gen880a(rng *lib.Rand) []byte { return rng.Bytes(1 + rng.Intn(40)) }
+
 // Types is the registry of view types driven by this harness.
 var Types = []VT{
 	{Name: "ARP", Make: func(b []byte) interface{} { return packet.ARP(b) }, Valid: genARP,
 		Fields: []int{0, 1, 2, 3, 4, 5}, Bounds: []int{28}},
+	{Name: "DHCP4", Make: func(b []byte) interface{} { return packet.DHCP4(b) }, Valid: genDHCP4,
+		Fields: []int{0, 2, 44, 107, 108, 235, 240, 241, 242, 243, 244}, Bounds: []int{240, 242, 244}},
+	{Name: "DNS", Make: func(b []byte) interface{} { return packet.DNS(b) }, Valid: genDNS,
+		Fields: []int{2, 3}, Bounds: []int{12}},
 	{Name: "Ether", Make: func(b []byte) interface{} { return packet.Ether(b) }, Valid: genEther,
 		Fields: []int{12, 13}, Bounds: []int{14, 18, 22, 30, 34, 38, 54}},
+	{Name: "EthernetPause", Make: func(b []byte) interface{} { return packet.EthernetPause(b) }, Valid: genPause,
+		Fields: []int{0, 1}, Bounds: []int{46}},
+	{Name: "HopByHopExtensionHeader", Make: func(b []byte) interface{} { return packet.HopByHopExtensionHeader(b) }, Valid: genHBH,
+		Fields: []int{1, 2, 3}, Bounds: []int{2, 8, 10, 16, 18}},
+	{Name: "ICMP", Make: func(b []byte) interface{} { return packet.ICMP(b) }, Valid: genICMP,
+		Fields: []int{0}, Bounds: []int{8}},
+	{Name: "ICMP4Redirect", Make: func(b []byte) interface{} { return packet.ICMP4Redirect(b) }, Valid: genR4,
+		Fields: []int{0, 4, 5}, Bounds: []int{8, 24, 48}},
+	{Name: "ICMP6NeighborAdvertisement", Make: func(b []byte) interface{} { return packet.ICMP6NeighborAdvertisement(b) },
+		Valid: genNDTarget(136, 2, 24), Fields: []int{4, 24, 25}, Bounds: []int{24, 32}},
+	{Name: "ICMP6NeighborSolicitation", Make: func(b []byte) interface{} { return packet.ICMP6NeighborSolicitation(b) },
+		Valid: genNDTarget(135, 1, 24), Fields: []int{24, 25}, Bounds: []int{24, 32}},
+	{Name: "ICMP6Redirect", Make: func(b []byte) interface{} { return packet.ICMP6Redirect(b) },
+		Valid: genNDTarget(137, 2, 40), Fields: []int{40, 41}, Bounds: []int{40, 48}},
+	{Name: "ICMP6RouterAdvertisement", Make: func(b []byte) interface{} { return packet.ICMP6RouterAdvertisement(b) }, Valid: genRA,
+		Fields: []int{5, 16, 17, 25}, Bounds: []int{16, 17, 18, 24}},
+	{Name: "ICMP6RouterSolicitation", Make: func(b []byte) interface{} { return packet.ICMP6RouterSolicitation(b) }, Valid: genRS,
+		Fields: []int{0, 8, 9, 24, 25}, Bounds: []int{8, 16, 24, 26, 32}},
+	{Name: "ICMPEcho", Make: func(b []byte) interface{} { return packet.ICMPEcho(b) }, Valid: genICMP,
+		Fields: []int{0}, Bounds: []int{8}},
+	{Name: "IEEE1905", Make: func(b []byte) interface{} { return packet.IEEE1905(b) }, Valid: gen1905,
+		Fields: []int{0}, Bounds: []int{8}},
 	{Name: "IP4", Make: func(b []byte) interface{} { return packet.IP4(b) }, Valid: genIP4,
 		Fields: []int{0, 2, 3, 6, 7}, Bounds: []int{20, 24, 60}},
+	{Name: "IP6", Make: func(b []byte) interface{} { return packet.IP6(b) }, Valid: genIP6,
+		Fields: []int{0, 1, 4, 5}, Bounds: []int{40}},
+	{Name: "LLC", Make: func(b []byte) interface{} { return packet.LLC(b) }, Valid: genLLC,
+		Fields: []int{0, 1, 2}, Bounds: []int{3, 4}},
+	{Name: "LLDP", Make: func(b []byte) interface{} { return packet.LLDP(b) }, Valid: genLLDP,
+		Fields: []int{0, 1, 2, 3, 9, 10}, Bounds: []int{6, 9}, StringMax: 64},
+	{Name: "RRCP", Make: func(b []byte) interface{} { return packet.RRCP(b) }, Valid: genRRCP,
+		Fields: []int{0, 1}, Bounds: []int{16}},
+	{Name: "SNAP", Make: func(b []byte) interface{} { return packet.SNAP(b) }, Valid: genSNAP,
+		Fields: []int{2}, Bounds: []int{9}},
 	{Name: "TCP", Make: func(b []byte) interface{} { return packet.TCP(b) }, Valid: genTCP,
 		Fields: []int{12}, Bounds: []int{20, 24, 60}},
 	{Name: "UDP", Make: func(b []byte) interface{} { return packet.UDP(b) }, Valid: genUDP,
 		Fields: []int{4, 5}, Bounds: []int{8}},
+	{Name: "Unknown880a", Make: func(b []byte) interface{} { return packet.Unknown880a(b) }, Valid: gen880a,
+		Fields: nil, Bounds: []int{1}},
 }
